@@ -300,7 +300,7 @@ def jobs(tier, seed):
     for n, m in shapes:
         cells = [(i, j) for i in range(n) for j in range(m)]
         out.append(dict(kind='table', shape=[n, m], wtype='bool', sparse=[], weight=n * m))
-        maxmiss = len(cells) if (tier != 'quick' or len(cells) <= 4 or min(n, m) == 1) else 1
+        maxmiss = len(cells) if (len(cells) <= 4 or min(n, m) == 1) else 1
         for k in range(0, maxmiss + 1):
             for miss in itertools.combinations(cells, k):
                 if tier == 'quick' and len(cells) == 6 and min(n, m) > 1 and k == 1 and miss[0] not in ((0, 0), (1, 1)):
@@ -318,7 +318,7 @@ def jobs(tier, seed):
 
 def bounds_text(tier):
     return ("get_dtype: all integers lo <= hi in [-2**63, 2**64) (no size bound); tables 1x1..3x2/2x3 with every missing-pair "
-            "pattern (quick: 2x3/3x2 only complete and non-negative), 3x3 boolean complete (thorough: 3x3 integer complete, prefix-split over the pool, and every missing-pair pattern of 2x3/3x2); integer weights "
+            "pattern (quick: 2x3/3x2 only complete and non-negative), 3x3 boolean complete (thorough: 3x3 integer complete, prefix-split over the pool, and 2x3/3x2 with any one pair missing in both domains); integer weights "
             "symbolic; complete tables over the whole documented range split into the two domains [0, 2**64) and "
             "[-2**63, 2**63); sparse tables with per-weight ranges [0, (2**64-2)//rows] and [-2**63, (2**63-2)//rows] so that "
             "the internal sentinel stays representable (the complement is the region of the listed findings, explored by "
